@@ -30,9 +30,7 @@ func c13child(args []string) {
 	fmt.Sscan(args[1], &G)
 	fmt.Sscan(args[2], &iters)
 	mgr := service.NewListenerManager()
-	l, _ := net.Listen("tcp", "127.0.0.1:0")
-	base := l.Addr().(*net.TCPAddr).Port
-	l.Close()
+	base := freeLowPorts(52)
 	var progress int64
 	var wg sync.WaitGroup
 	if mode == "stream-unaccepted" {
